@@ -181,7 +181,8 @@ class PortsWorld(World):
             dw = rng.choice([8, 16, 32, 64])
             return {"aw": rng.range(0, 12), "dw": dw,
                     "g": rng.choice([None] + [x for x in (8, 16, 32, 64) if x <= dw]),
-                    "feats": sorted(rng.subset(FEATS)),
+                    # (the order in which the caller lists the features is arbitrary)
+                    "feats": rng.shuffle(sorted(rng.subset(FEATS))),
                     "feats_as": rng.choice(["strs", "strs", "enum_set", "list", "frozenset"]),
                     "mutate": rng.choice([None, None, "add", "drop"])}
         if cls == "event.Source.Signature":
@@ -207,6 +208,10 @@ class PortsWorld(World):
             how = rng.below(3)
             p2 = dict(p1) if how == 0 else (self._perturb(rng, cls, p1) if how == 1
                                             else self._params(rng, cls))
+            if cls == "wishbone.Signature" and how == 0:
+                # the same features, listed in another order and spelled another way
+                p2["feats"] = rng.shuffle(sorted(p1["feats"]))
+                p2["feats_as"] = rng.choice(["strs", "enum_set", "list", "frozenset"])
             if cls == "csr.FieldPort.Signature" and rng.chance(0.3):
                 # cast-equal but differently spelled shapes
                 w = rng.range(1, 8)
